@@ -508,6 +508,11 @@ def count_binders(t, which):
     return n
 
 
+# C13's own generator also tries witness names that are already declared (they must be refused); C14 applies
+# search_method suggestions, where a failure caused by such a name would be the harness's guess at fault: it switches this off
+NEAR_MISS_NAMES = True
+
+
 def fill_params(state, sugg, rng, query=None):
     """Supply the parameters a suggestion leaves open: those the method declares (`sig`) and, after
     a ParameterQueryException, those it names.  Type-directed guesses from the terms at hand.
@@ -540,7 +545,7 @@ def fill_params(state, sugg, rng, query=None):
             fth = state.get_proof_item(facts[0]).th
             nb = count_binders(fth.prop, "exists")
             names = fresh_names(state, goal_pos, nb, rng)
-            if names and rng.random() < 0.12:
+            if names and NEAR_MISS_NAMES and rng.random() < 0.12:
                 # near miss: a name that is already declared where the witnesses go (must be refused)
                 clash = clash_names(state, goal_pos, facts[0])
                 if clash:
